@@ -254,6 +254,9 @@ class SymBackend(BackendBase):
             return s
         f = z3.Function(name, z3.IntSort(), z3.IntSort())
         core.INDEX_FNS[name] = (f, upper)
+        if strictly_increasing:
+            # pigeonhole consequence of "strictly increasing into [0, upper)"
+            self.c.assume(zi(length) <= zi(upper))
         k, k2 = z3.Int(name + "!q"), z3.Int(name + "!q2")
         self.c.assume(z3.ForAll([k], z3.And(f(k) >= 0, f(k) < zi(upper))))
         if strictly_increasing:
@@ -415,7 +418,7 @@ class SymBackend(BackendBase):
             tot = 1
             for d in shape:
                 tot *= d
-            if tot <= 64:
+            if tot <= (64 if self.mode == "B" else 6):
                 for idx in itertools.product(*[range(d) for d in shape]):
                     yield list(idx), []
                 return
